@@ -107,7 +107,8 @@ def _parse_list_item(
         "block_html",
         "list",
     ]
-    if 'fenced_directive' in block.specification:
+    if 'fenced_directive' in block.specification and state.depth() < block.max_nested_level:
+        # (not beyond the nesting limit: there the rule is switched off)
         list_item_breaks.insert(1, "fenced_directive")
 
     pairs = [
